@@ -44,7 +44,7 @@ PROPS = {
     'C07': dict(engine='pair', pool='x', modes=['xver'], witness=True, values=(5, 40)),
     'C08': dict(engine='pair', pool='x', modes=['frame'], witness=False, values=(8, 80)),
     # the model's relation is the trait (fung lines: any disagreement is a wrong trait value on that pair)
-    'C09': dict(engine='pair', pool='f', modes=['fung'], witness=False, witness_ops=['fung'], values=(4, 40)),
+    'C09': dict(engine='pair', pool='f', modes=['fung'], witness=False, witness_ops=['fung', 'dec'], values=(4, 40)),
     'C15': dict(witness=False, stages=[
         dict(engine='codec', pool='h', modes=['handles'], values=(6, 60), witness_ops=['enc']),
         dict(engine='single', name='life', source='life_main.cpp', runs=[['--mode', 'uh']])]),
